@@ -204,7 +204,7 @@ impl Scenario for C20 {
     fn meta(&self) -> Meta {
         Meta {
             level: "exploration",
-            rule: "run = a producing full node (timer bundling, real miner, pool fed by an authenticated wallet), 0..2 observer nodes that dial it, handshake and sync, and up to 4 further external peers that connect, answer or ignore the challenge, ask for the chain, send key lists and leave; 10..60/160 scripted operations. Every lock request of saito-core code is logged by hook H5 with the locks the task holds. Oracle 1 (rank monitor): no request for rank r while the task holds rank > r (config 3 < blockchain 4 < mempool 5 < peers 6 < wallet 7) unless the task write-holds a lower-ranked lock that every observed opposite-order acquisition also holds; no re-request of a held lock with a write on either side. Oracle 2 (deadlock, yield_pm > 0): the processors of a node run as concurrent tasks (one handler or timer call each); a seeded choice picks the next woken task; every lock request and every I/O call suspends the task with probability yield_pm/1000; unfinished tasks with none woken is a deadlock and is reported with holders and awaited locks. distinct_nontrivial = distinct (ordered pair of ranks held->requested, requesting site) and distinct schedule digests of concurrent groups.",
+            rule: "run = a producing full node (timer bundling, real miner, pool fed by an authenticated wallet), 0..2 observer nodes that dial it, handshake and sync, and up to 4 further external peers that connect, answer or ignore the challenge, ask for the chain, send key lists and leave; 10..60/160 scripted operations (every other observer crash loses the file of the observer's tip block and leaves an operator-style checkpoint file for it, so that the re-fetched block takes the checkpoint path of add_blocks_from_mempool). Every lock request of saito-core code is logged by hook H5 with the locks the task holds. Oracle 1 (rank monitor): no request for rank r while the task holds rank > r (config 3 < blockchain 4 < mempool 5 < peers 6 < wallet 7) unless the task write-holds a lower-ranked lock that every observed opposite-order acquisition also holds; no re-request of a held lock with a write on either side. Oracle 2 (deadlock, yield_pm > 0): the processors of a node run as concurrent tasks (one handler or timer call each); a seeded choice picks the next woken task; every lock request and every I/O call suspends the task with probability yield_pm/1000; unfinished tasks with none woken is a deadlock and is reported with holders and awaited locks. distinct_nontrivial = distinct (ordered pair of ranks held->requested, requesting site) and distinct schedule digests of concurrent groups.",
             real: &["RoutingThread", "ConsensusThread", "VerificationThread", "MiningThread", "Network (handshake, propagation, chain request)", "Blockchain::add_block / add_blocks_from_mempool", "Mempool", "Wallet", "tokio::sync::RwLock (wrapped, not replaced)"],
             stubs: &["poll-level scheduler instead of the tokio runtime (one task per processor and node)", "SimNet, SimDisk, SimClock", "saito-rust, saito-spammer and saito-wasm callers are not run"],
             assumptions: &["only executed paths are judged (dynamic monitor)", "parallelism is modelled at lock-request and I/O granularity"],
@@ -582,6 +582,23 @@ impl Scenario for C20 {
                         let lite = plan.lite_observer && o == *obs.last().unwrap();
                         let mut lcfg = ocfg.clone();
                         lcfg.spv = lite;
+                        // every other crash loses the file of the observer's tip block (a lost write): after the
+                        // restart it fetches that block again from the producer. An operator-supplied checkpoint
+                        // file for it (here: one that lists no keys) is then processed on the network path
+                        if op.b % 2 == 0 && !lite {
+                            let (tid, th) = sim.nodes[o].tip();
+                            if tid > 1 {
+                                let hex = hex::encode(th);
+                                let mut d = sim.nodes[o].disk.lock().unwrap();
+                                let victim: Option<String> = d.files.keys().find(|k| k.starts_with(crate::simio::BLOCK_DIR) && k.contains(&hex)).cloned();
+                                if let Some(path) = victim {
+                                    d.files.remove(&path);
+                                    d.files.insert(format!("{}{}-{}.chk", crate::simio::CHECKPOINT_DIR, tid, hex), vec![]);
+                                    drop(d);
+                                    r.fault("tip_block_file_lost_and_checkpoint_file_present", 1);
+                                }
+                            }
+                        }
                         sim.restart_node(o, if lite { &lcfg } else { &ocfg }, &oopts, None);
                         sim.init_node(o, false);
                         restarted_at = Some(oi);
